@@ -1,4 +1,5 @@
 # -*- coding: utf-8 -*-
+import asyncio
 import logging
 from typing import TYPE_CHECKING, Any, Callable
 
@@ -49,5 +50,8 @@ class EventHelper(persistence.Savable):
         for listener in list(self.listeners):
             try:
                 getattr(listener, event_function.__name__)(*args, **kwargs)
-            except Exception as exception:
+            except (Exception, asyncio.CancelledError) as exception:
+                # (a listener is called synchronously: a ``CancelledError`` that comes out of it is not the cancellation of
+                # the task that is running, it is a failure of the listener like any other -- say it looked at a
+                # cancelled future -- although it is not an ``Exception``)
                 _LOGGER.error("Listener '%s' produced an exception:\n%s", listener, exception)
